@@ -100,9 +100,9 @@ def run(run):
     quick = run.tier == "quick"
     pages = lib.run_impl("test_pages", [{}], shards=1)[0].get("pages", [])
     texts, klass = [], []
-    for _ in range(900 if quick else 60000):
+    for _ in range(1500 if quick else 60000):
         texts.append(soup(rng, rng.randint(1, 40))); klass.append("soup")
-    for _ in range(150 if quick else 5000):
+    for _ in range(300 if quick else 5000):
         texts.append(c02.render(c02.gen_doc(rng, rng.randint(1, 10)), rng)); klass.append("doc")
     for _ in range(500 if quick else 30000):
         if pages:
